@@ -9,11 +9,15 @@ Design deviations (DESIGN.md section 4, C03):
     condition of this property. The gateway applies the very object it records (C02-R1), so a
     replay of a recorded-but-unconverted action rebuilds the same (unconverted) state; breaking
     that rule breaks value conversion (C22/C23), not redo.
-  * What a replay can diverge on is *hidden state consulted while a doc action is applied*. Two
-    such mechanisms exist and are decided here instead: the per-user-action exemption map that
-    keeps replayed explicit values of trigger-formula columns from being recalculated (R3), and the
-    request to evaluate default/trigger formulas of data columns, which only user-level entry
-    points may make (R4).
+  * What a replay can diverge on is *hidden state consulted while a doc action is applied*. The
+    mechanism that matters is decided here instead: the per-user-action exemption map that
+    keeps replayed explicit values of trigger-formula columns from being recalculated (R3). The
+    other one -- the request to evaluate default/trigger formulas of data columns
+    (data_cols_to_recompute / recompute_data_col), made by user-level code only -- was considered
+    and left out: the original bundle runs the same doc-action code as the replay, and a replayed
+    explicit value is shielded by R3, so a violation shows up in a redo only for formulas that
+    depend on something outside the document AND happened to return the stored value the first
+    time; that is too weak to be called a necessary condition.
 """
 import ast
 from ..fn import World
@@ -35,9 +39,7 @@ EXPLANATION = (
   "exempts every non-formula column it writes (same rows), the exemption map is written only by "
   "Engine.prevent_recalc, cleared only at the start of each user action, only read (never "
   "consumed) by _recompute_step, which subtracts the exempt rows before scanning, and exemptions "
-  "are lifted only by user-level code. R4: only user-level entry points ask for data columns' "
-  "formulas to be evaluated (data_cols_to_recompute / recompute_data_col); the doc-action level "
-  "(DocActions, Engine.add_records / load_table), which is all a replay runs, never does. Relies "
+  "are lifted only by user-level code (which a replay never runs). Relies "
   "on C02-R1/R2/R6 and C01-R4. Not decided: equality of the replayed state (formulas that are "
   "not functions of the document are outside any structural rule).")
 
@@ -51,7 +53,6 @@ def check(run, repo, tier):
   r1_codec(run, w)
   r2_forward_replay(run, w)
   r3_exemptions(run, w)
-  r4_no_recalc_request(run, w)
 
 
 # ------------------------------------------------------------------------------------------
@@ -441,47 +442,6 @@ def walk_body(fn):
       yield n
 
 
-# ------------------------------------------------------------------------------------------
-RECALC_ARGS = {
-  "invalidate_records": ("data_cols_to_recompute", 3),
-  "invalidate_column": ("recompute_data_col", 2),
-}
-FORWARDERS = {
-  "engine.Engine.invalidate_records": "forwards its own data_cols_to_recompute parameter",
-}
-
-
-def r4_no_recalc_request(run, w):
-  R4 = run.rule("C03-R4", "only user-level entry points request evaluation of data columns' "
-                "formulas; the doc-action level never does", floor=10)
-  for fi in w.repo.all_functions():
-    fn = w.fn_of(fi)
-    for c in calls_in(fi.node.body):
-      if not (isinstance(c.func, ast.Attribute) and c.func.attr in RECALC_ARGS):
-        continue
-      kw, pos = RECALC_ARGS[c.func.attr]
-      rt = fn.type_of(c.func.value)
-      if rt is not None and rt != T.ENGINE:
-        continue
-      if any(k.arg is None for k in c.keywords) or any(isinstance(a, ast.Starred) for a in c.args):
-        raise AnalysisError("%s: %s called with * / ** arguments" % (fi.qualname, short(c)))
-      a = kwarg(c, kw, pos)
-      requests = a is not None and not is_const(a, False) and \
-          not (isinstance(a, ast.Call) and dotted(a.func) in ("frozenset", "set") and not a.args)
-      if not requests:
-        run.ob(R4, fi.qualname, short(c), "invalidation without a request to evaluate data "
-               "columns' formulas", True, fi=fi, node=c, nontrivial=False)
-        continue
-      if fi.qualname in FORWARDERS:
-        ok = fi.qualname == "engine.Engine.invalidate_records" and \
-            "data_cols_to_recompute" in names_loaded(a)
-      else:
-        ok = fi.cls is not None and fi.cls.qualname == "useractions.UserActions"
-      run.ob(R4, fi.qualname, short(c), "a request to evaluate trigger/default formulas of data "
-             "columns comes from user-level code only; a replayed doc action (DocActions, "
-             "add_records, load_table) must leave stored values of data columns alone", ok, fi=fi,
-             node=c)
-
 
 EN = "sandbox/grist/engine.py"
 U = "sandbox/grist/useractions.py"
@@ -539,14 +499,4 @@ VARIANTS = [
    "    for doc_action in doc_actions:\n      if doc_action[1].startswith('_grist_'):\n"
    "        continue\n      self._do_doc_action(actions.action_from_repr(doc_action))",
    "C03-R2"),
-  ("docaction-requests-default-formulas", EN,
-   "    # Invalidate new records to cause the formula columns to get recomputed.\n"
-   "    self.invalidate_records(table_id, row_ids)",
-   "    # Invalidate new records to cause the formula columns to get recomputed.\n"
-   "    self.invalidate_records(table_id, row_ids, data_cols_to_recompute=set(table.all_columns))",
-   "C03-R4"),
-  ("docaction-recomputes-written-trigger-cols", D,
-   "    self._engine.invalidate_records(table_id, row_ids, col_ids=columns.keys())",
-   "    self._engine.invalidate_records(table_id, row_ids, col_ids=columns.keys(),\n"
-   "                                    data_cols_to_recompute=columns.keys())", "C03-R4"),
 ]
